@@ -20,8 +20,12 @@ Record tree_ok (t : tree) : Prop := {
 Section RoutingProofs.
 Variable cell rng : Type.
 Variable decide : rng -> option (nat * node) -> list node -> list cell -> list rec * rng.
-Hypothesis decide_len : forall g p kids cs, length (fst (decide g p kids cs)) = length cs.
-Hypothesis decide_kids : forall g p kids cs, Forall (fun r => In (asg r) kids) (fst (decide g p kids cs)).
+(* decide is only ever called on a parent with at least two children, so that is all
+   that is asked of it (asking it for every child list would be unsatisfiable: no record
+   can name a member of the empty list) *)
+Hypothesis decide_len : forall g p kids cs, (2 <= length kids)%nat -> length (fst (decide g p kids cs)) = length cs.
+Hypothesis decide_kids : forall g p kids cs, (2 <= length kids)%nat ->
+  Forall (fun r => In (asg r) kids) (fst (decide g p kids cs)).
 
 Notation visit := (visit cell rng decide).
 Notation do_level := (do_level cell rng decide).
@@ -57,7 +61,7 @@ Proof.
     destruct (Nat.eqb (length rs) (length (i0 :: idx'))) eqn:El; [|discriminate].
     inversion H; subst. exists rs, g'. apply Nat.eqb_eq in El.
     split; [exact El|]. split; [|reflexivity].
-    pose proof (decide_kids g parent (k0 :: k1 :: kids'') (pick cells (i0 :: idx'))) as Hk.
+    pose proof (decide_kids g parent (k0 :: k1 :: kids'') (pick cells (i0 :: idx')) ltac:(cbn; lia)) as Hk.
     rewrite E in Hk. exact Hk.
 Qed.
 
@@ -71,7 +75,7 @@ Proof.
   destruct kids as [|k0 kids']; [exfalso; apply Hk; [discriminate | reflexivity]|].
   destruct kids' as [|k1 kids'']; [eauto|].
   destruct (decide g parent (k0 :: k1 :: kids'') (pick cells (i0 :: idx'))) as [rs g'] eqn:E.
-  pose proof (decide_len g parent (k0 :: k1 :: kids'') (pick cells (i0 :: idx'))) as Hl.
+  pose proof (decide_len g parent (k0 :: k1 :: kids'') (pick cells (i0 :: idx')) ltac:(cbn; lia)) as Hl.
   rewrite E in Hl. cbn [fst] in Hl. rewrite pick_length in Hl by exact Hidx.
   rewrite Hl. rewrite Nat.eqb_refl. eauto.
 Qed.
@@ -562,3 +566,25 @@ Proof.
   - rewrite Eo. eauto.
 Qed.
 End RoutingProofs.
+
+(* ---------------- a decision procedure that meets the hypotheses (non-vacuity) ---------------- *)
+Lemma last_in {A} (l : list A) d : l <> [] -> In (last l d) l.
+Proof.
+  induction l as [|x t IH]; intros H; [congruence|].
+  destruct t as [|y t']; [left; reflexivity|]. right. apply IH. discriminate.
+Qed.
+
+Definition ends_decide (g : nat) (p : option (nat * node)) (kids : list node) (cs : list Z) : list rec * nat :=
+  (map (fun c => {| asg := if Z.even c then hd 0 kids else last kids 0; prob := (3, 4); corr := Some (1, 2);
+                    runners := []; agg := one |}) cs, S g).
+
+Lemma ends_decide_ok :
+  (forall g p kids cs, (2 <= length kids)%nat -> length (fst (ends_decide g p kids cs)) = length cs) /\
+  (forall g p kids cs, (2 <= length kids)%nat -> Forall (fun r => In (asg r) kids) (fst (ends_decide g p kids cs))).
+Proof.
+  split; intros g p kids cs Hk; cbn [ends_decide fst].
+  - apply map_length.
+  - apply Forall_forall. intros r Hr. apply in_map_iff in Hr. destruct Hr as (c & <- & _). cbn [asg].
+    destruct kids as [|k0 kids']; [cbn in Hk; lia|].
+    destruct (Z.even c); [left; reflexivity | apply last_in; discriminate].
+Qed.
